@@ -1,3 +1,4 @@
+import Gmx.Model.ExceptEq
 /-!
 # Gmx.Model.FixedStr — `crates/utils/src/fixed_str.rs`
 
@@ -15,7 +16,6 @@ inductive Err where
   | panic     -- slice index out of range (proved unreachable)
   deriving DecidableEq, Repr
 
-deriving instance DecidableEq for Except
 
 /-- `std::str::from_utf8` acceptance as a byte-at-a-time automaton (Unicode table 3-7: no
 overlong forms, no surrogates, nothing above U+10FFFF). `k` = continuation bytes still owed,
